@@ -27,13 +27,13 @@ LEVEL_TEXT = {
     "C03": "Slice paths are part of every source in the specification; nested range expressions incl. just-past-the-end steps are traced from owned, literal and k-mer parents." + _common,
     "C04": "ToInt/IntoRaw/FromRaw/KFromInt actions state the little-endian layout on bit sequences (Bits.tla); images of sequences produced in every listed way are traced." + _common,
     "C05": "Finite domain closed completely: all 7x256 codec cells are dumped from the real code in canonical order and validated against Codecs.tla (written from the documentation)." + _common,
-    "C06": "The register machine under edits; long random histories with full state comparison after every step, frame property checked by TLC." + _common,
+    "C06": "The register machine under edits; long random histories with full state comparison after every step, frame property checked by TLC; every remove is presented to RangeBounds in one of four spellings of the same range step (range syntax, pairs of Bounds with included / excluded / unbounded ends)." + _common,
     "C07": "Copying/InPlace actions for rev/comp/revcomp with involution and composition laws model-checked; traced on slices at offsets and word-boundary lengths." + _common,
     "C08": "KFrom/KParse/Kmers/KToSeq actions; k-mer construction and iteration traced for boundary or all instantiated K on usize/u64/u128." + _common,
     "C09": "KOp actions on raw patterns with the canonical-form invariant KCanonical checked at every trace state; exhaustive over all k-mers for small K." + _common,
     "C10": "Cmp/KMinMax actions: colexicographic order = numeric order model-checked on small K; adversarial pairs and minimisers traced for every Ord codec." + _common,
     "C11": "Iterator registers with ItNew/ItNext (step-wise) and ItRun (whole run); termination <>ItDone checked by TLC under fairness; runs traced with a call cap." + _common,
-    "C12": "BitOp/ContainsSl actions defined on nucleotide SETS; all 256 symbol pairs at independent nibble offsets traced." + _common,
+    "C12": "BitOp/ContainsSl actions defined on nucleotide SETS; all 256 symbol pairs at independent nibble offsets traced; the owned operators are fed fresh copies and also consume (move) the sequences the borrowed operators returned." + _common,
     "C13": "Finite domain closed completely: 64 codons x 32 bit offsets through the real to_amino, validated against the NCBI table in Codecs.tla." + _common,
     "C14": "Finite domain closed completely: all 16^3 IUPAC codons; soundness/completeness defined by expansion sets (Translation.tla), the 29-row mechanism checked against it by TLC." + _common,
     "C15": "TableNew/TableFold state machine: order independence of the inverse map model-checked over all insertion orders; tables rebuilt repeatedly and queried by slices at offsets." + _common,
